@@ -466,6 +466,19 @@ func TestDeleteRange(t *testing.T) {
 		// let the asynchronous secondary commits finish: delete-range also wipes transaction records, and a
 		// secondary lock whose primary record was wiped could not be resolved before its ttl
 		cl.Drain(3*time.Millisecond, 2*time.Second)
+		// ... and make sure of it (on a loaded machine the committing goroutine may not have started within the quiet
+		// window): no lock may be left before the task starts
+		for poll := 0; ; poll++ {
+			probe := tikv.StoreProbe{KVStore: cl.Clients[1].Store}
+			left, err := probe.ScanLocks(ctx, nil, []byte{0xff, 0xff}, math.MaxUint64)
+			if err == nil && len(left) == 0 {
+				break
+			}
+			if poll > 5000 {
+				t.Fatalf("VERIF-INFRA: set-up transactions still hold %d locks (%v)", len(left), err)
+			}
+			time.Sleep(2 * time.Millisecond)
+		}
 		if gateIdx >= 0 {
 			cl.Clients[0].Net.Arm(cl.NextCall(), 0, []*sim.Fault{{Type: tikvrpc.CmdDeleteRange, Index: gateIdx, Action: "gateBefore", Gate: func() { cl.SplitAt(gateKey) }}})
 		}
